@@ -752,7 +752,7 @@ class Driver:
                 if st_ == "oor":
                     for s_, p_ in zip(sl_, f_["params"]):
                         if s_ is not None and self.acc(s_, p_["type"]) == "oor":
-                            why = f"param={tkind(p_['type'])},arg=int-out-of-range"
+                            why = "arg=int-out-of-range"
             self.bad(f"returned-with-exception-set:exc={pend}:{why}", call=callsig,
                      trace=[l for _, _, l in ev][:4], returned=repr(res)[:60])
             res = None
@@ -770,10 +770,13 @@ class Driver:
                 if sl_:
                     for s_, p_ in zip(sl_, f_ran["params"]):
                         if s_ is not None and self.acc(s_, p_["type"]) != "yes":
-                            why = f"param={tkind(p_['type'])},arg={'int-out-of-range' if self.acc(s_, p_['type']) == 'oor' else s_.cat().replace('-const', '') if s_.c != 'junk' else s_.extra}"
+                            if self.acc(s_, p_["type"]) == "oor":
+                                why = "arg=int-out-of-range"
+                            else:
+                                why = f"param={tcat(p_['type'])},arg={s_.cat().replace('-const', '') if s_.c != 'junk' else s_.extra}"
                             break
                 elif f_ran is not None and f_ran.get("kind") == "ctor":
-                    why = "coercion-constructor:" + ",".join(tkind(p["type"]) for p in f_ran["params"])
+                    why = "coercion-constructor:" + ",".join(tcat(p["type"]) for p in f_ran["params"])
                 self.bad(f"body-ran-but-raised:exc={exc}:{why}", call=callsig, exc=excmsg, trace=[l for _, _, l in ev][:6])
             for t, st in snap:
                 if self.state(t.cls, t.w) != st and not main:
@@ -808,6 +811,8 @@ class Driver:
                     why = self.neg_reason(sts, args, kw, recv, params_only=True)
                     if exc == "AttributeError" and "has no attribute 'value'" in excmsg:
                         why = "param=enum-scoped"      # raised by the enum conversion, whichever argument was malformed
+                    elif why.startswith("arg=int-out-of-range"):
+                        why = "arg=int-out-of-range"
                     self.bad(f"wrong-exception:got={exc},want={want[0]}:{why}", call=callsig, exc=excmsg)
         elif mode == "positive":
             exp_eids = set()
@@ -829,7 +834,7 @@ class Driver:
                         # the range check of another overload of the set raised instead of letting the next one try
                         pt = next((tkind(p_["type"]) for f_, st_, sl_ in sts if st_ == "oor" for s_, p_ in zip(sl_, f_["params"])
                                    if s_ is not None and self.acc(s_, p_["type"]) == "oor"), "?")
-                        self.bad(f"positive-rejected:exc=OverflowError:range-check-of-other-overload:param={pt}", call=callsig, exc=excmsg)
+                        self.bad("positive-rejected:exc=OverflowError:range-check-of-other-overload", call=callsig, exc=excmsg, param=pt)
                     elif sp:
                         self.bad(f"positive-rejected:exc={exc}{sp}", call=callsig, exc=excmsg)
                     else:
